@@ -432,6 +432,44 @@ class Path:
                 if inst.get_id() not in have:
                     s.add(inst)
             res, backend, model = solve_valid_inc(s, f, self.ex.timeout_ms)
+            # model-guided instantiation: a counter-model found with PARTIALLY instantiated universal facts is
+            # re-checked after instantiating every fact at the integer values the model gives to the index terms
+            rounds = 0
+            while res == "invalid" and model and model[1] and self.ufacts and rounds < 3:
+                rounds += 1
+                ints = _model_ints(model[1])
+                added = 0
+                for ui, uf in enumerate(self.ufacts):
+                    import itertools as _it
+
+                    combos = [(z3.IntVal(v),) for v in ints] if uf.arity == 1 else [tuple(z3.IntVal(v) for v in c) for c in _it.product(ints[:8], repeat=uf.arity)]
+                    for c in combos:
+                        inst = uf.instance(*c)
+                        if inst is not None:
+                            s.add(inst)
+                            added += 1
+                if not added:
+                    break
+                r2 = s.check()
+                if r2 == z3.unsat:
+                    res, backend, model = "valid", "z3+mbqi", None
+                elif r2 == z3.sat:
+                    md = _model_to_dict(s.model())
+                    model = ("; ".join(f"{k}={v}" for k, v in sorted(md.items()) if len(v) < 80)[:2000], md)
+                else:
+                    # could not re-establish the counter-model: fall back to a fresh solver on all assertions
+                    s2 = z3.Solver()
+                    s2.set("timeout", self.ex.timeout_ms)
+                    for a in s.assertions():
+                        s2.add(a)
+                    r3 = s2.check()
+                    if r3 == z3.unsat:
+                        res, backend, model = "valid", "z3+mbqi", None
+                    elif r3 == z3.sat:
+                        md = _model_to_dict(s2.model())
+                        model = ("; ".join(f"{k}={v}" for k, v in sorted(md.items()) if len(v) < 80)[:2000], md)
+                    else:
+                        res, backend, model = "unknown", "z3+mbqi", None
         finally:
             s.pop()
         ob.backend = backend
@@ -488,9 +526,26 @@ def _model_to_dict(m):
     return out
 
 
+def _model_ints(md, limit=24):
+    """integer values occurring in a model (candidates for index instantiation)"""
+    import re
+
+    vals = set()
+    for k, v in md.items():
+        for tok in re.findall(r"(?<![\w/.])-?\d+(?![\w/.])", v):
+            try:
+                n = int(tok)
+            except ValueError:
+                continue
+            if -2 <= n <= 64:
+                vals.add(n)
+    out = sorted(vals)
+    return out[:limit]
+
+
 def solve_valid_inc(s, goal, timeout_ms):
     """like solve_valid but on a prepared incremental solver (caller does push/pop)"""
-    s.set("timeout", timeout_ms)
+    s.set("timeout", min(timeout_ms, 2500))  # the incremental core first, briefly; then a fresh solver on the cone
     s.add(z3.Not(goal))
     r = s.check()
     if r == z3.unsat:
@@ -531,7 +586,60 @@ def solve_valid_inc(s, goal, timeout_ms):
         return "valid", "cvc5", None
     if r2 == "sat":
         return "invalid", "cvc5", ("(cvc5 sat; no model extracted)", {})
+    # REFUTE rendering for the uninterpreted pow2: add its TRUE values on a small exponent range and restrict the
+    # exponents to that range.  This only strengthens the hypotheses with facts that hold for 2^k, so a model is a
+    # genuine counter-model of the obligation (never used to prove anything).
+    rr = _refute_with_pow2_table(asserts, min(timeout_ms, 10000))
+    if rr is not None:
+        return "invalid", "z3-refute(pow2 table)", rr
     return "unknown", "z3+cvc5", None
+
+
+def _pow2_apps(es):
+    out = {}
+    stack = list(es)
+    seen = set()
+    while stack:
+        t = stack.pop()
+        if t.get_id() in seen:
+            continue
+        seen.add(t.get_id())
+        if z3.is_quantifier(t):
+            stack.append(t.body())
+            continue
+        if z3.is_app(t):
+            if t.decl().kind() == z3.Z3_OP_UNINTERPRETED and t.decl().name() == "pow2" and t.num_args() == 1:
+                out[t.get_id()] = t
+            stack.extend(t.children())
+    return list(out.values())
+
+
+def _refute_with_pow2_table(asserts, timeout_ms, rng=2):
+    apps = _pow2_apps(asserts)
+    if not apps:
+        return None
+    s = z3.Solver()
+    s.set("timeout", timeout_ms)
+    for a in asserts:
+        s.add(a)
+    for t in apps:
+        e = t.arg(0)
+        if z3.is_var(e) or not z3.is_int(e):
+            continue
+        table = z3.RealVal(2) ** 0
+        val = None
+        for k in range(rng, -rng - 1, -1):
+            from fractions import Fraction
+
+            fr = Fraction(2) ** k
+            v = z3.RealVal(f"{fr.numerator}/{fr.denominator}")
+            val = v if val is None else z3.If(e == k, v, val)
+        s.add(e >= -rng, e <= rng, t == val)
+    if s.check() == z3.sat:
+        md = _model_to_dict(s.model())
+        ms = "; ".join(f"{k}={v}" for k, v in sorted(md.items()) if len(v) < 80)[:2000]
+        return (ms, md)
+    return None
 
 
 def _symbols(e, cache):
